@@ -3,6 +3,7 @@
 From Coq Require Import ZArith List Bool.
 From BV Require Import Lib.Cases Model.LaxSem Model.Restart Model.Pool
      Proofs.PoolJobs Proofs.PoolInv Proofs.PoolScan.
+From BV Require Gen.G_pool_shape.
 Import ListNotations.
 Open Scope Z_scope.
 
@@ -71,6 +72,19 @@ Print Assumptions C06_hard_priority.
 Theorem C06_job_limit_precedence : forall s x v, soft x = Some v -> eff_soft s x = Some v.
 Proof. exact eff_soft_own. Qed.
 Print Assumptions C06_job_limit_precedence.
+
+(* the soft branch is guarded by the dirty set and adds to it, the set keeps exactly the ids still cached, the soft handler re-checks readiness and signals the owner
+   (facts computed from the AST of /repo/billiard/pool.py on this run; see translate/kernels/poolshape.py) *)
+Theorem C06_code_shape :
+  G_pool_shape.scan_soft_guarded_by_dirty = true /\
+  G_pool_shape.scan_soft_marks_dirty = true /\
+  G_pool_shape.scan_dirty_keeps_cached = true /\
+  G_pool_shape.soft_handler_checks_ready_first = true /\
+  G_pool_shape.soft_handler_signals_owner = true /\
+  G_pool_shape.apply_soft_defaults_to_pool = true /\
+  G_pool_shape.scan_job_limit_precedence = true.
+Proof. repeat split; reflexivity. Qed.
+Print Assumptions C06_code_shape.
 
 (* non-vacuity: soft 2 (job) over pool default 4, hard 6; three scans while the job runs:
    exactly one USR1, one callback (soft=True, 2); the task catches it and returns 9 *)
